@@ -1,31 +1,109 @@
 import IoraModel.Props.C11
 import IoraModel.Props.C13
+import IoraModel.Lemmas.KvJfsStore
 /-!
-# C11, clause J1 composed with C13-J2: "never empty or unreadable"
+# C11, clause J1: "the JSON store reopens to the last completed flush … never an empty store"
 
-`JsonFileStore` flushes `_store.dump(2)` and its constructor parses the file, falling back to an EMPTY store on a parse error.
-`Props/C11.lean` proves which BYTES the store file holds at every crash point; `Props/C13.lean` proves that the serialisation of
-every representable value parses back to that value.  Together: the document a new process loads is the old file's, or exactly
-the flushed value.  (Kept in its own module so that C11's core does not depend on C13's files.)
+`JsonFileStore` flushes `_store.dump(2)`; its constructor reads the whole file through `Json::parseOrThrow(content, ownFileLimits())`
+and falls back to an EMPTY store on a parse error.  `Props/C11.lean` proves which BYTES the store file holds at every crash point;
+`Props/C13.lean` proves that the serialisation of every representable value parses back to that value WITHIN the parse limits.
+The constructor's limits are generated (`Gen.Kv.jsonCtor*`); after repair FC11c they are `SIZE_MAX` each, so "within the limits"
+follows from "fits into a 64-bit address space" (`Jfs.weight v < 2^64`, true of every value a process holds) — the theorems below
+carry no limit hypothesis any more.  (With the default `ParseLimits` — the unrepaired constructor, `file >> _store` —
+`Jfs.ctorLimits_eq` does not build: a 10 001-key store reopened EMPTY, `C13.W2_stream_operators_gap`.)
 -/
 namespace Iora.C11
 open Iora
 
-/-- **J1 ∘ J2.** For every representable document `v` (finite numbers) within the parse limits, under C13's explicit libc facts `LibcOk`, every pretty/compact setting, every directory and
-every crash point of the flush of `serialize v`: the store file is untouched, or it holds a text that parses to exactly `v` — so
-the constructor's "parse error ⇒ empty store" fall-back can never fire on a file this code wrote. -/
-theorem J1_reparse (ops : Json.FloatOps) (hl : Json.Spec.LibcOk ops) (lim : Json.Limits) (o : Json.Opts) (wi : Json.Spec.Ws) (hind : wi.render = o.indent)
-    (hns : o.sortKeys = false) (v : Json.Json) (hg : v.Good) (hw : v.within lim 0 0) (fs : Kv.Fs) (k cut : Nat) :
-    Jfs.loaded (Kv.crashImage fs (Jfs.saveToFile (Json.serialize ops o 0 v)) k cut) = Jfs.loaded fs ∨
-    ∃ d, Jfs.loaded (Kv.crashImage fs (Jfs.saveToFile (Json.serialize ops o 0 v)) k cut) = some d ∧ Json.parse ops lim d = .ok v := by
-  rcases J1_flush_atomic fs (Json.serialize ops o 0 v) k cut with h | h
-  · exact .inl h
-  · exact .inr ⟨_, h, C13.J2_roundtrip ops hl lim o wi hind hns v hg hw⟩
+/-- **Gen obligation.** `JsonFileStore`'s constructor re-reads its own file with no limit at all (every `ParseLimits` field is
+`SIZE_MAX`), and `saveToFile` writes `dump(n)` with some `n ≥ 0` (pretty-printed with `n` spaces; the theorems hold for every such `n`). -/
+theorem gen_json_ctor_ok :
+    Jfs.ctorLimits = Jfs.limAll (2 ^ 64 - 1) ∧ 0 ≤ Gen.Kv.jsonSaveDumpIndent :=
+  ⟨Jfs.ctorLimits_eq, Jfs.dumpIndent_nonneg⟩
 
-/-- after any sequence of completed flushes the file parses to the last flushed document -/
-theorem J1_last_reparse (ops : Json.FloatOps) (hl : Json.Spec.LibcOk ops) (lim : Json.Limits) (o : Json.Opts) (wi : Json.Spec.Ws) (hind : wi.render = o.indent)
-    (hns : o.sortKeys = false) (v : Json.Json) (hg : v.Good) (hw : v.within lim 0 0) (fs : Kv.Fs) (datas : List Bytes) :
-    ∃ d, Jfs.loaded (Jfs.flushAll fs (datas ++ [Json.serialize ops o 0 v])) = some d ∧ Json.parse ops lim d = .ok v :=
-  ⟨_, J1_last_flush fs datas _, C13.J2_roundtrip ops hl lim o wi hind hns v hg hw⟩
+/-- **Gen obligation (flusher thread, repair FC11e).** `flushThreadFunc` flushes the registered stores while holding `registryMutex`
+(so `unregisterStore()`, the first thing a destructor does, cannot return while that store is being flushed: no use after destruction)
+and only ever TRIES to take that mutex (`unregisterStore()` joins the thread while holding it: waiting for it deadlocked the destructor of
+the last store).  Liveness / memory safety of the registry are not clauses of C11; the fact is pinned because the correspondence run
+destroys and re-creates stores next to a live flusher thread. -/
+theorem gen_json_flusher_ok : Gen.Kv.jsonFlusherHoldsRegistryNeverWaits = true := by decide
+
+/-- **J1 ∘ J2 (every crash point of a flush).** For every document `v` made of finite numbers that fits into the address space
+(`Jfs.DocOK`), under C13's explicit libc facts, every directory and every crash point of the flush of `v`: a new process (the
+CONSTRUCTOR: read, parse with its own limits, fall back to empty on error) starts with exactly what it would have started with
+before the flush, or with exactly `v` — never with the fall-back's empty store because of the flush. -/
+theorem J1_reparse (ops : Json.FloatOps) (hl : Json.Spec.LibcOk ops) (v : Json.Json) (hv : Jfs.DocOK v) (fs : Kv.Fs) (k cut : Nat) :
+    Jfs.openStore ops (Kv.crashImage fs (Jfs.saveToFile (Jfs.text ops v)) k cut) = Jfs.openStore ops fs ∨
+    Jfs.openStore ops (Kv.crashImage fs (Jfs.saveToFile (Jfs.text ops v)) k cut) = ⟨v, false⟩ := by
+  rcases J1_flush_atomic fs (Jfs.text ops v) k cut with h | h
+  · exact .inl (Jfs.openStore_congr ops _ _ h)
+  · exact .inr (Jfs.openStore_of_loaded ops hl v hv _ h)
+
+/-- after any sequence of completed flushes the constructor loads the last flushed document -/
+theorem J1_last_reparse (ops : Json.FloatOps) (hl : Json.Spec.LibcOk ops) (v : Json.Json) (hv : Jfs.DocOK v) (fs : Kv.Fs) (datas : List Bytes) :
+    Jfs.openStore ops (Jfs.flushAll fs (datas ++ [Jfs.text ops v])) = ⟨v, false⟩ :=
+  Jfs.openStore_of_loaded ops hl v hv _ (J1_last_flush fs datas _)
+
+/-- **J2 (the store with state: set / remove / flush / destructor / constructor).** Start a store on ANY directory, run ANY history
+of `set`, `remove` and `flush()` calls (every document along the way `DocOK`): a clean close (the destructor flushes a dirty
+store) followed by a new instance gives back exactly the document the store held — whatever was or was not flushed before. -/
+theorem J2_history_reopen (ops : Json.FloatOps) (hl : Json.Spec.LibcOk ops) (fs0 : Kv.Fs) (hist : List Jfs.Op)
+    (hok : Jfs.HistOK ops (Jfs.openStore ops fs0) fs0 hist) :
+    let r := Jfs.runOps ops (Jfs.openStore ops fs0) fs0 hist
+    (Jfs.reopen ops r.1 r.2).1 = ⟨r.1.doc, false⟩ := by
+  intro r
+  have h := Jfs.Coherent.run ops hl hist _ _ (Jfs.Coherent.open ops fs0) hok
+  exact Jfs.reopen_doc ops hl r.1 r.2 h.1 h.2
+
+/-- **J2 (crash inside any flush of any history).** After any such history, a crash at any point of the NEXT flush (or of the
+destructor's flush): a new instance starts with the document of the last COMPLETED flush (what a new instance would have
+loaded had the process died just before this flush) or with the document being flushed. -/
+theorem J2_history_crash (ops : Json.FloatOps) (hl : Json.Spec.LibcOk ops) (fs0 : Kv.Fs) (hist : List Jfs.Op)
+    (hok : Jfs.HistOK ops (Jfs.openStore ops fs0) fs0 hist) (k cut : Nat) :
+    let r := Jfs.runOps ops (Jfs.openStore ops fs0) fs0 hist
+    Jfs.openStore ops (Kv.crashImage r.2 (Jfs.saveToFile (Jfs.text ops r.1.doc)) k cut) = Jfs.openStore ops r.2 ∨
+    Jfs.openStore ops (Kv.crashImage r.2 (Jfs.saveToFile (Jfs.text ops r.1.doc)) k cut) = ⟨r.1.doc, false⟩ := by
+  intro r
+  have h := Jfs.Coherent.run ops hl hist _ _ (Jfs.Coherent.open ops fs0) hok
+  exact J1_reparse ops hl r.1.doc h.2 r.2 k cut
+
+/-- the hypotheses are satisfiable by a non-trivial history: a key set, flushed, a second key, the first removed -/
+example : Jfs.HistOK Json.Spec.toyOps (Jfs.openStore Json.Spec.toyOps {}) {}
+    [.set [0x61] (.str [0x78]), .flush, .set [0x62] (.int (-5)), .remove [0x61]] := by
+  simp [Jfs.HistOK, Jfs.Store.step, Jfs.openStore, Jfs.loaded, Jfs.Store.empty, Jfs.Store.remove, Jfs.DocOK, Json.setKey,
+    Json.insertOrAssign, Json.Json.Good, Json.Json.GoodMembers, Jfs.weight, Jfs.weightMembers]
+
+/-! ## the flusher thread against the application thread (seed C11-d) -/
+
+/-- **J3 (two roles, every interleaving).** The flusher thread's `tryFlushIfDirty()` and the application's `set()` / `flush()` /
+destructor, interleaved in ANY order at the granularity "dump taken — `<file>.tmp` written — renamed", with the lock scope of the
+working tree (`Gen.Kv.jsonSaveCallersHoldMutex`): at every moment the store file is the dump of a state NO OLDER than the last
+completed `flush()` (`acked ≤ file`) and never from the future; and whenever nobody is inside a flush and the store is clean, the
+file is the dump of the current document. -/
+theorem J3_flush_race (evs : List Jfs.Race.Ev) :
+    let s := Jfs.Race.runGen {} evs
+    s.acked ≤ s.file ∧ s.file ≤ s.mem ∧ (s.fg = .idle → s.bg = .idle → s.dirty = false → s.file = s.mem) := by
+  intro s
+  have hg : Gen.Kv.jsonSaveCallersHoldMutex = true := by decide
+  have h : Jfs.Race.Inv s := by
+    show Jfs.Race.Inv (Jfs.Race.run Gen.Kv.jsonSaveCallersHoldMutex {} evs)
+    rw [hg]; exact Jfs.Race.Inv.init.run evs
+  exact ⟨h.1, h.2.1, h.2.2.1⟩
+
+/-- the full statement of J3 for a given lock scope -/
+def J3_statement (locked : Bool) : Prop :=
+  ∀ evs : List Jfs.Race.Ev, (Jfs.Race.run locked {} evs).acked ≤ (Jfs.Race.run locked {} evs).file
+
+/-- **J3 needs the lock.** When the file operations of a save run after `_mutex` has been released (seed C11-d and its variant that
+keeps the `ofstream` inside `saveToFile`), the schedule `set; bg takes its dump; set; flush() completes; bg writes and renames`
+leaves generation 1 in the file although `flush()` of generation 2 had completed — with nobody in a flush and `_dirty == false`,
+so nothing will ever repair it. -/
+theorem J3_unlocked_refuted : ¬ J3_statement false := by
+  intro h
+  have := h Jfs.Race.witness
+  have hw := Jfs.Race.witness_unlocked
+  omega
+
+theorem J3_locked : J3_statement true := fun evs => (Jfs.Race.Inv.init.run evs).1
 
 end Iora.C11
